@@ -14,8 +14,9 @@
   * `C18_roundtrip_full`           : everything together, for the four kinds of host (`HostKind`)
   * `C18_human_repr_shape`         : what `human_repr()` is, piece by piece
   * `C18_idn_host_shown_decoded`   : an IDN host is shown decoded, and re-encodes to the stored A-label
-  * `C18_idn_digit_host_shown_raw` : CORNER — a registered name whose last character is a digit is NOT
-                                     decoded by `URL.host` (IP-address shortcut), so it is shown as stored
+  * `C18_idn_digit_host_now_decoded` : FORMER CORNER (defect fixed by commit 60dbf1e) — an IDN host whose
+                                     last character is a digit (`bücher.h1`) is decoded by `URL.host` too:
+                                     the IP-address shortcut no longer applies when "xn--" occurs
   * `C18_roundtrip_full_total`     : `human_repr()` does not fail when the oracle knows every character
 
   With user / password the NFKC proviso of `C18_roundtrip_userinfo` remains (see
@@ -52,11 +53,14 @@ inductive HostKind (e : Env) : Str → Str → Str → Prop
   /-- a plain registered name (ASCII, lower case, valid, not an IP literal) that IDNA leaves alone -/
   | plain {h : Str} : PlainHost h → e.o.idnaDec h = some (some h) → HostKind e h h h
   /-- an internationalised name `h` with A-label form `raw`; `idnaEncode h = raw` and
-      `idnaDec raw = h` are the two oracle facts of the IDNA round trip (trusted base) -/
+      `idnaDec raw = h` are the two oracle facts of the IDNA round trip (trusted base).
+      `raw` does not end in a digit OR contains "xn--" (as every real A-label form does; the encoder is
+      an oracle, so this cannot be derived): then `URL.host` decodes it (since commit 60dbf1e) -/
   | idn {h raw : Str} (b : Bool) : PlainHost raw → isAscii h = false →
       HostLemmas.looksIP e.o h = .ok b → parseIP (partition 37 h).1 = none →
       idnaEncode e.o h = .ok raw → e.o.idnaDec raw = some (some h) →
-      (∀ l, raw.getLast? = some l → isDigitC l = false) → DispHost h → 58 ∉ h → HostKind e h raw h
+      ((∀ l, raw.getLast? = some l → isDigitC l = false) ∨ hasSub [120, 110, 45, 45] raw = true) →
+      DispHost h → 58 ∉ h → HostKind e h raw h
   /-- an IPv4 literal -/
   | ipv4 {s : Str} {o4 : List Nat} : parseIPv4 s = some o4 → HostKind e s s s
   /-- an IPv6 literal `a` (any accepted spelling), optionally followed by `%zone`: stored and
@@ -351,13 +355,21 @@ theorem C18_roundtrip_full_total (e : Env) (sc : Str) (user pw : Option Str) (h 
 /-- For a host `h` whose stored form is the A-label text `raw` (`idnaEncode h = raw`,
     `idnaDec raw = h`: the IDNA round trip, an oracle fact of the trusted base), `human_repr()`
     shows `h` — right after "://" and the `user:password@` prefix — not `raw`; and `URL(...)` of
-    that text re-encodes `h` to `raw` (same netloc, `raw_host == raw`). -/
+    that text re-encodes `h` to `raw` (same netloc, `raw_host == raw`).
+
+    `hlast`: the last character of `raw` is no digit, OR `raw` contains "xn--".  Before commit 60dbf1e
+    only the first alternative was usable (`URL.host` returned every digit-ending raw host
+    undecoded); `C18_idn_digit_host_now_decoded` is the former counterexample.  The second alternative
+    holds for every real A-label form of a non-ASCII name, but `idnaEncode` is an oracle here (any
+    `Str → Option (Option Str)` table), so it cannot be derived from `henc` and `hna`; without `hlast`
+    the statement is false (`C18_idn_oracle_without_xn`). -/
 theorem C18_idn_host_shown_decoded (e : Env) (sc : Str) (user pw : Option Str) (h raw : Str) (b : Bool)
     (port : Option Nat) (p : Str) (kvs : List (Str × Str)) (f : Str)
     (vs : ValidScheme sc) (ph : PlainHost raw) (hna : isAscii h = false)
     (hlook : HostLemmas.looksIP e.o h = .ok b) (hnoip : parseIP (partition 37 h).1 = none)
     (henc : idnaEncode e.o h = .ok raw) (hdec : e.o.idnaDec raw = some (some h))
-    (hlast : ∀ l, raw.getLast? = some l → isDigitC l = false) (hd : DispHost h) (h58 : 58 ∉ h)
+    (hlast : (∀ l, raw.getLast? = some l → isDigitC l = false) ∨ hasSub [120, 110, 45, 45] raw = true)
+    (hd : DispHost h) (h58 : 58 ∉ h)
     (hport : ∀ x, port = some x → x ≤ 65535)
     (hu : UText user) (hune : ∀ s, user = some s → s ≠ []) (hw : UText pw)
     (hp : PyStr (47 :: p)) (hn : NoSurrogate (47 :: p)) (hg : GoodPairs kvs)
@@ -395,15 +407,15 @@ theorem C18_idn_host_shown_decoded (e : Env) (sc : Str) (user pw : Option Str) (
     unfold rawHost net
     rw [h3]; rfl
 
-/-! ## CORNER: a registered name that ends in a digit is shown as stored, not decoded
+/-! ## FORMER CORNER (fixed by commit 60dbf1e): an IDN name that ends in a digit is shown decoded
 
-  `URL.host` returns `raw_host` unchanged when its last character is a digit ("IP addresses are
-  never IDNA encoded"), without checking that it IS an IP address.  For an IDN host whose last
+  `URL.host` used to return `raw_host` unchanged whenever its last character is a digit ("IP addresses
+  are never IDNA encoded"), without checking that it IS an IP address.  For an IDN host whose last
   label is ASCII and ends in a digit — e.g. `bücher.h1`, stored as `xn--bcher-kva.h1` — `host` and
-  hence `human_repr()` show the A-label form `xn--bcher-kva.h1` instead of `bücher.h1`.  The round
-  trip still holds (the A-label form is a plain host); only the "IDN host decoded" half of the
-  property fails, which is why `HostKind.idn` / `C18_idn_host_shown_decoded` ask for a stored host
-  that does not end in a digit. -/
+  hence `human_repr()` showed the A-label form `xn--bcher-kva.h1` instead of `bücher.h1`.  Now the
+  shortcut is `raw[-1].isdigit() and "xn--" not in raw or ":" in raw`, so such a host is decoded, and
+  `HostKind.idn` / `C18_idn_host_shown_decoded` accept a stored host that ends in a digit provided it
+  contains "xn--". -/
 
 section checks
 
@@ -418,18 +430,37 @@ private def demo : Oracles :=
                         else if s = "xn--bcher-kva.h1".toStr then some (some "bücher.h1".toStr)
                         else some (some s) }
 
-/-- `URL.build(scheme="http", host="bücher.h1", path="/p")`: stored host `xn--bcher-kva.h1`,
-    `host` and `human_repr()` show the stored form, not `bücher.h1` (both backends); the
-    round trip holds all the same -/
-theorem C18_idn_digit_host_shown_raw : ∀ b : Backend,
+/-- `URL.build(scheme="http", host="bücher.h1", path="/p")`: stored host `xn--bcher-kva.h1`;
+    `host` and `human_repr()` now show the decoded `bücher.h1`, not the stored form (both backends),
+    and the round trip holds.  Defect fixed by commit 60dbf1e (this theorem replaces the
+    counterexample `C18_idn_digit_host_shown_raw`, which recorded `host = xn--bcher-kva.h1` and
+    `human_repr() = http://xn--bcher-kva.h1/p`). -/
+theorem C18_idn_digit_host_now_decoded : ∀ b : Backend,
     let e : Env := ⟨b, demo⟩
     (do let u ← build e (fullArgs "http".toStr none none "bücher.h1".toStr none "p".toStr [] [])
         let hr ← humanRepr e u
         let v ← encodeUrl e hr
         pure (u.netloc, ← host e u, hr, v.beq u) : R (Str × Option Str × Str × Bool)) =
-      .ok ("xn--bcher-kva.h1".toStr, some "xn--bcher-kva.h1".toStr,
-           "http://xn--bcher-kva.h1/p".toStr, true) ∧
+      .ok ("xn--bcher-kva.h1".toStr, some "bücher.h1".toStr,
+           "http://bücher.h1/p".toStr, true) ∧
     idnaDecode e.o "xn--bcher-kva.h1".toStr = .ok "bücher.h1".toStr := by
+  intro b; cases b <;> decide +kernel
+
+/-- `hlast` of `C18_idn_host_shown_decoded` / `HostKind.idn` cannot be dropped (nor derived from the
+    encoder's answer): the encoder is an oracle, and one that answers a digit-ending text WITHOUT
+    "xn--" (`h1` for `é1`; no real IDNA encoder does) makes `URL.host` take the IP shortcut and show the
+    stored form.  Every other hypothesis of `HostKind.idn` holds. -/
+theorem C18_idn_oracle_without_xn : ∀ b : Backend,
+    let o : Oracles := { demo with
+      idnaEnc := fun s => if s = "é1".toStr then some (some "h1".toStr) else some none,
+      idnaDec := fun s => if s = "h1".toStr then some (some "é1".toStr) else some (some s) }
+    let e : Env := ⟨b, o⟩
+    PlainHost "h1".toStr ∧ isAscii "é1".toStr = false ∧ HostLemmas.looksIP o "é1".toStr = .ok true ∧
+    parseIP (partition 37 "é1".toStr).1 = none ∧ idnaEncode o "é1".toStr = .ok "h1".toStr ∧
+    o.idnaDec "h1".toStr = some (some "é1".toStr) ∧ 58 ∉ "é1".toStr ∧
+    hasSub [120, 110, 45, 45] "h1".toStr = false ∧ "h1".toStr.getLast? = some 49 ∧ isDigitC 49 = true ∧
+    (do let u ← build e (fullArgs "http".toStr none none "é1".toStr none "p".toStr [] [])
+        pure (u.netloc, ← host e u) : R (Str × Option Str)) = .ok ("h1".toStr, some "h1".toStr) := by
   intro b; cases b <;> decide +kernel
 
 /-! ### non-vacuity: concrete inputs satisfy the hypotheses, and the computed results -/
@@ -468,7 +499,15 @@ example (b : Backend) : HostKind ⟨b, demo⟩ "bücher.example".toStr "xn--bche
     "bücher.example".toStr :=
   .idn false (by decide +kernel) (by decide) (by show HostLemmas.looksIP demo _ = _; decide +kernel)
     (by decide +kernel) (by show idnaEncode demo _ = _; decide +kernel)
-    (by show demo.idnaDec _ = _; decide +kernel) (by decide +kernel)
+    (by show demo.idnaDec _ = _; decide +kernel) (Or.inl (by decide +kernel))
+    ⟨by decide, by unfold AuthCh; decide, by decide⟩ (by decide)
+-- … and the NEW alternative of `hlast`: `bücher.h1`, stored as the digit-ending `xn--bcher-kva.h1`
+example : "xn--bcher-kva.h1".toStr.getLast? = some 49 ∧ isDigitC 49 = true ∧
+    hasSub [120, 110, 45, 45] "xn--bcher-kva.h1".toStr = true := by decide
+example (b : Backend) : HostKind ⟨b, demo⟩ "bücher.h1".toStr "xn--bcher-kva.h1".toStr "bücher.h1".toStr :=
+  .idn true (by decide +kernel) (by decide) (by show HostLemmas.looksIP demo _ = _; decide +kernel)
+    (by decide +kernel) (by show idnaEncode demo _ = _; decide +kernel)
+    (by show demo.idnaDec _ = _; decide +kernel) (Or.inr (by decide))
     ⟨by decide, by unfold AuthCh; decide, by decide⟩ (by decide)
 example (b : Backend) : HostKind ⟨b, demo⟩ "example.com".toStr "example.com".toStr "example.com".toStr :=
   .plain (by decide +kernel) (by show demo.idnaDec _ = _; decide +kernel)
